@@ -177,7 +177,7 @@ func (tr *Tracker) build(t *rapid.T, kind string) Op {
 			op.Slot = rapid.IntRange(0, tr.N-1).Draw(t, "slot")
 		}
 		if rapid.IntRange(0, 7).Draw(t, "sigkind") == 0 {
-			op.Sig = rapid.SampledFrom([]string{"other", "stale", "random"}).Draw(t, "badsig")
+			op.Sig = rapid.SampledFrom([]string{"other", "stale", "random", "short"}).Draw(t, "badsig")
 		}
 	case "Update":
 		op.Actor = rapid.IntRange(0, tr.N-1).Draw(t, "actor")
